@@ -894,7 +894,7 @@ impl<'w> Held<'w> for HMulti<'w> {
 }
 
 /// trait object used by the meta table in the borrow histories
-pub trait Named {
+pub trait Named: Send + Sync {
     fn ty(&self) -> u8;
     fn ident(&self) -> u64;
 }
@@ -1113,7 +1113,7 @@ impl Prop for C08 {
         }
     }
 
-    fn check(&self, case: &C08Case, _lane: usize, st: &mut Stats) -> Result<(), Fail> {
+    fn check(&self, case: &C08Case, lane: usize, st: &mut Stats) -> Result<(), Fail> {
         tracker_reset();
         z_reset();
         let mut world = std::mem::ManuallyDrop::new(World::empty());
@@ -1142,6 +1142,8 @@ impl Prop for C08 {
         let (mut panics, mut rebor) = (0u64, 0u64);
         let mut released_once: std::collections::BTreeSet<(u8, u8)> = Default::default();
         let mut clone_froms = 0u64;
+        let mut iter_on_worker = 0u64;
+        let mut worker_pool: Option<crate::build::Pool> = None;
 
         for (step, op) in case.ops.iter().enumerate() {
             let bad = |what: String| Fail::new(format!("step {} {:?}: {}", step, op, what));
@@ -1454,9 +1456,22 @@ impl Prop for C08 {
                     } else {
                         None
                     };
+                    // every fourth step of an iteration is taken on a worker of a rayon pool (where systems
+                    // that walk a meta table run)
+                    let on_worker = step % 4 == 1;
+                    if on_worker {
+                        iter_on_worker += 1;
+                    }
+                    let tp = worker_pool.get_or_insert_with(|| crate::build::pool(lane + 40, 1));
                     let r = outcome(|| match &mut iter {
-                        IterState::Shared(it, _) => it.next().map(|g| Box::new(HMetaS(g)) as HB<'_>),
-                        IterState::Excl(it, _) => it.next().map(|g| Box::new(HMetaX(g)) as HB<'_>),
+                        IterState::Shared(it, _) => {
+                            let g = if on_worker { tp.install(|| it.next()) } else { it.next() };
+                            g.map(|g| Box::new(HMetaS(g)) as HB<'_>)
+                        }
+                        IterState::Excl(it, _) => {
+                            let g = if on_worker { tp.install(|| it.next()) } else { it.next() };
+                            g.map(|g| Box::new(HMetaX(g)) as HB<'_>)
+                        }
                         IterState::None => None,
                     });
                     let newpos = if p < reg_order.len() { p + 1 } else { p };
@@ -1542,6 +1557,7 @@ impl Prop for C08 {
         st.class_n("predicted_panics", panics);
         st.class_n("reborrows_after_release", rebor);
         st.class_n("clone_from_between_shared_guards", clone_froms);
+        st.class_n("iteration_steps_taken_on_a_pool_worker", iter_on_worker);
         if panics > 0 && rebor > 0 {
             st.nontrivial(case, || json!({"predicted_panics": panics, "reborrows": rebor}));
         }
